@@ -57,7 +57,11 @@ mut('C18', 'same-signal-regenerated', S, "        if not use_same_signal:\n     
 mut('C18', 'fresh-signal-not-regenerated', S, "    if use_same_signal:\n        true_U = make_signal(G, n_channel, use_exact_signal,\n                             signal_chol_channel)",
     "    true_U = make_signal(G, n_channel, use_exact_signal,\n                         signal_chol_channel)\n    use_same_signal = True")
 mut('C18', 'design-transposed', S, "    cond_vec = np.kron(np.ones((n_part,)), c)   # Condition Vector", "    cond_vec = np.kron(c, np.ones((n_part,)))   # Condition Vector")
-mut('C18', 'noise-cov-transposed', S, "            epsilon = epsilon @ noise_chol_channel", "            epsilon = epsilon @ noise_chol_channel.T")
+# (removed: 'noise-cov-transposed', epsilon @ noise_chol_channel.T -- the statement fixes additivity and sqrt scaling of the
+#  noise term, not which triangle of the Cholesky factor shapes it (the transposed form is in fact the one whose covariance
+#  is the requested matrix), so C18 accepts both orientations since wave 6 and this is no violation)
+mut('C18', 'noise-cov-dropped', S, "            epsilon = epsilon @ noise_chol_channel", "            epsilon = epsilon")
+mut('C18', 'noise-trial-cov-on-channels', S, "            epsilon = noise_chol_trial @ epsilon", "            epsilon = epsilon @ noise_chol_trial")
 # ---- C19
 mut('C19', 'radius-le', SL, "    return tuple(data[distance < radius].T.tolist())", "    return tuple(data[distance <= radius].T.tolist())")
 mut('C19', 'threshold-gt', SL, "        if mask[neighbors].mean() >= threshold:", "        if mask[neighbors].mean() > threshold:")
